@@ -43,6 +43,9 @@ type c17Case struct {
 	// Nested > 0: the mount under test and a second mount of the sibling directory are registered inside two nested
 	// groups with Nested (outer) + 1 (inner) pass-through middleware; requests alternate between the two mounts
 	Nested int `json:"nested_groups_outer_middleware,omitempty"`
+	// SamePrefix: a second StaticFiles mount on the SAME prefix serves another root (<sandbox>/rootb) with another
+	// extension list (txt|md), registered before (1) or after (2) the mount under test (css|js)
+	SamePrefix int `json:"second_mount_on_the_same_prefix,omitempty"`
 }
 
 var (
@@ -110,6 +113,9 @@ func c17Setup() {
 				_ = os.Chdir(old)
 			}
 		}
+		for _, f := range []string{"rootb/a.txt", "rootb/s.css", "rootb/sub/d.md", "rootb/sub/c.js", "rootb/n.txt"} {
+			w(f, "INSIDE-B:"+f)
+		}
 		w("SECRET.txt", c17Marker+":secret")
 		w("rootx/s.css", c17Marker+":sibling")
 		w("rootx/index.html", c17Marker+":sibling-index")
@@ -147,6 +153,12 @@ func c17Gen(tier string, emit func(c17Case)) {
 					if (h == "StaticFiles" || h == "StaticDir") && !enc && f%4 == 1 {
 						// with the route cache on and a second static mount whose root is the sibling directory
 						emit(c17Case{Handler: h, Prefix: p, Encoded: enc, First: f, Depth: 2, Cache: 1 + f%2})
+					}
+					if h == "StaticFiles" && !enc && p == "/d" {
+						// a second mount on the same prefix with another root and another extension list
+						for sp := 1; sp <= 2; sp++ {
+							emit(c17Case{Handler: h, Prefix: p, First: f, Depth: 2, SamePrefix: sp})
+						}
 					}
 					if (h == "StaticFiles" || h == "StaticDir") && !enc && p == "/d" {
 						// both mounts inside nested groups whose middleware slices were grown by append (2+1, 3+1, 1+1)
@@ -328,7 +340,16 @@ func c17Run(c c17Case, st *fw.Stats) []fw.Viol {
 		opts = append(opts, rux.CachingWithNum(uint16(c.Cache)))
 	}
 	r := rux.New(opts...)
+	mountB := func() { r.StaticFiles(c.Prefix, filepath.Join(c17Base, "rootb"), "txt|md") }
 	mountAll := func() {
+		if c.SamePrefix == 1 {
+			mountB()
+		}
+		defer func() {
+			if c.SamePrefix == 2 {
+				mountB()
+			}
+		}()
 		if c.Cache > 0 || c.Nested > 0 {
 			// a legitimate second mount: /other serves the sibling directory (whose files carry the outside marker)
 			if c.Handler == "StaticFiles" {
@@ -387,6 +408,21 @@ func c17Run(c c17Case, st *fw.Stats) []fw.Viol {
 		body := w.Body.String()
 		if strings.ContainsAny(raw, ".%\\") && strings.Contains(raw, "..") || strings.Contains(raw, "%2e") {
 			st.Nontrivial++
+		}
+		if c.SamePrefix > 0 && w.Code == 200 {
+			// two mounts share the prefix: css / js come from <sandbox>/root, txt / md from <sandbox>/rootb - never crosswise
+			nd := refmodel.Norm(dec, false)
+			fromB := strings.HasPrefix(body, "INSIDE-B:")
+			switch {
+			case (strings.HasSuffix(nd, ".css") || strings.HasSuffix(nd, ".js")) && !c17Inside[body]:
+				add("static:other-mounts-root", fmt.Sprintf("%s with StaticFiles(%q, <sandbox>/rootb, txt|md) on the same prefix (registered %s): GET %q answered %q, which is not a css / js file of <sandbox>/root", desc, c.Prefix, map[int]string{1: "before", 2: "after"}[c.SamePrefix], dec, trunc(body)))
+			case (strings.HasSuffix(nd, ".txt") || strings.HasSuffix(nd, ".md")) && !fromB:
+				add("static:other-mounts-root", fmt.Sprintf("%s with StaticFiles(%q, <sandbox>/rootb, txt|md) on the same prefix (registered %s): GET %q answered %q, which is not a txt / md file of <sandbox>/rootb", desc, c.Prefix, map[int]string{1: "before", 2: "after"}[c.SamePrefix], dec, trunc(body)))
+			case !strings.HasSuffix(nd, ".css") && !strings.HasSuffix(nd, ".js") && !strings.HasSuffix(nd, ".txt") && !strings.HasSuffix(nd, ".md"):
+				add("static:extension", fmt.Sprintf("%s (two mounts on the prefix): GET %q answered 200 although the path ends in none of the allowed extensions", desc, dec))
+			}
+			st.Inc("status_200", 1)
+			return
 		}
 		if strings.Contains(body, c17Marker) {
 			add("static:outside-content", fmt.Sprintf("%s: GET raw path %q (decoded %q) returned content from outside the root: %q", desc, raw, dec, trunc(body)))
@@ -471,7 +507,7 @@ func c17Run(c c17Case, st *fw.Stats) []fw.Viol {
 var c17Spec = fw.Spec[c17Case]{
 	ID:    "C17",
 	Level: "model_checking",
-	Rule: "complete enumeration: all request paths of <=3 (thorough 4) tokens over 36 tokens {.., ., empty, sub, a.txt, b.css, SECRET.txt, rootx, %2e%2e, ..%2f, %2f, \\, %5c.., %00, 'a.txt.', '.../', s.css, ..%5c, c.js, e.scss, m.mjs, acss, x.css.bak, dir.js, inner.md, 'a.txt;.css', 'd.md;x.js', 'a.txt%3B.css', ';', names with a long s / in upper case where the extension list says js / css} after each mount prefix, sent with URL.RawPath = the raw string and URL.Path = its decoding, for StaticDir / StaticFS(http.Dir) / StaticFiles(css|js) / StaticFile x prefixes {/d, /deep/d, /root (= the directory's own name)} x both UseEncodedPath settings (and with a global path variable named like the handlers' internal variable; and with the mount and a second mount of the sibling directory inside nested groups with 2+1 / 3+1 / 1+1 middleware, requested alternately), against a real sandbox tree with marked files outside the root (parent directory, name-prefix sibling 'rootx'); plus relative roots in 5 spellings x 4 handlers x 5 arrangements (other mounts whose directory names differ by leading dots / slashes; another router or another mount registered while the process worked in a directory of the same layout; the root created only after the mount was registered; two groups mounting under the same prefix argument with different roots, the other one requested first) probed with all paths of <=2 tokens over 12 tokens; " +
+	Rule: "complete enumeration: all request paths of <=3 (thorough 4) tokens over 36 tokens {.., ., empty, sub, a.txt, b.css, SECRET.txt, rootx, %2e%2e, ..%2f, %2f, \\, %5c.., %00, 'a.txt.', '.../', s.css, ..%5c, c.js, e.scss, m.mjs, acss, x.css.bak, dir.js, inner.md, 'a.txt;.css', 'd.md;x.js', 'a.txt%3B.css', ';', names with a long s / in upper case where the extension list says js / css} after each mount prefix, sent with URL.RawPath = the raw string and URL.Path = its decoding, for StaticDir / StaticFS(http.Dir) / StaticFiles(css|js) / StaticFile x prefixes {/d, /deep/d, /root (= the directory's own name)} x both UseEncodedPath settings (and with a global path variable named like the handlers' internal variable; and with the mount and a second mount of the sibling directory inside nested groups with 2+1 / 3+1 / 1+1 middleware, requested alternately; and with a second StaticFiles mount on the SAME prefix serving another root with another extension list, registered before / after), against a real sandbox tree with marked files outside the root (parent directory, name-prefix sibling 'rootx'); plus relative roots in 5 spellings x 4 handlers x 5 arrangements (other mounts whose directory names differ by leading dots / slashes; another router or another mount registered while the process worked in a directory of the same layout; the root created only after the mount was registered; two groups mounting under the same prefix argument with different roots, the other one requested first) probed with all paths of <=2 tokens over 12 tokens; " +
 		"oracle: no body carries an outside marker or lists an outside directory, every 200 body is a file under the root, StaticFiles answers 200 only for allowed extensions, StaticFile only its file; non-trivial = a path containing a dot-dot in some encoding",
 	Assume: []string{"relative to the sandbox tree and the OS / file system the check runs on", "net/http's FileServer is part of the implementation under test, not of the oracle"},
 	Bounds: func(tier string) map[string]any {
